@@ -70,6 +70,14 @@ def _shrink(engine_name, prop, tier, record, violation):
     calls = 0
     try:
         rec = copy.deepcopy(record)
+        budget = eng.plan(prop, tier).get("ddmin_budget", 300)
+        if hasattr(eng, "shrinkable") and not eng.shrinkable(violation):
+            return rec, eng.execute(rec, state), 1
+        if hasattr(eng, "concretize"):
+            rec2 = eng.concretize(rec, state)
+            calls += 1
+            if _same(eng.execute(rec2, state).get("violation"), violation):
+                rec = rec2
         axes = eng.shrink_axes(rec) if hasattr(eng, "shrink_axes") else [("ops", "ops")]
         for _round in range(2):
             for _name, key in axes:
@@ -86,7 +94,7 @@ def _shrink(engine_name, prop, tier, record, violation):
                         return False
                     return _same(oc.get("violation"), violation)
 
-                small, n = ddmin(items, test, budget=300)
+                small, n = ddmin(items, test, budget=budget)
                 calls += n
                 _set(rec, key, small)
         if hasattr(eng, "simplify_record"):
